@@ -1290,3 +1290,50 @@ def rule_exact_reads(ctx, g, rid):
     ctx.floor(rid, "exact_read_calls", n_exact, 4)
     if n_exact:
         ctx.ok(rid, "exact-read-calls", "%d exact read calls" % n_exact)
+
+
+def rule_emission_purity(ctx, g, rid):
+    """C01/C02: a field that is set must be written.  Whether a record is emitted may depend only on the field it carries
+    (its Option discriminant, the loop over its container), never on a sibling field — otherwise some combination of
+    optional fields is silently not written and cannot be read back."""
+    from analysis import ctrl
+    ctx.rule(rid, "whether an encoder emits a record depends only on the field that record carries (its own Option / container), on loops and on error propagation — not on any other field")
+    F = ctx.F
+    pat = re.compile(r"::encode_record$|::write_record$|Encode::encode_[a-z_]+$|::encode_[a-z_]+$")
+    n = 0
+    for f in F.fns.values():
+        if not f.id.startswith("gds21::write::"):
+            continue
+        b = Body(f)
+        for bi, t in b.calls():
+            nm = callee_name(t) or ""
+            if not pat.search(nm) or len(t["args"]) < 2:
+                continue
+            n += 1
+            rv = b.def_rvalue(t["args"][1])
+            what = rv.get("variant") if rv and rv["k"] == "agg" and rv.get("variant") else nm.split("::")[-1]
+            sl = ctrl.slice_paths(b, t["args"][1:])
+            bad = []
+            for sw in sorted(ctrl.controlling_switches(b, bi)):
+                c = ctrl.classify_switch(b, sw)
+                if c[0] in ("try", "next"):
+                    continue
+                if c[0] in ("discr", "callres", "value") and any(ctrl.prefix_compatible(c[-1], q) for q in sl):
+                    continue
+                if c[0] == "call" and c[2] and re.search(r"::(is_some|is_none|is_empty|is_ok|is_err|len)$", c[1]) and any(ctrl.prefix_compatible(c[2], q) for q in sl):
+                    continue
+                if c[0] in ("discr", "callres", "value"):
+                    bad.append(ctrl.fmt_path(c[-1]))
+                elif c[0] == "call":
+                    bad.append("%s(%s)" % (c[1].split("::")[-1], ", ".join(ctrl.fmt_path(a) for a in c[3])))
+                elif c[0] == "cmp":
+                    bad.append("%s(%s)" % (c[1], ", ".join(ctrl.fmt_path(a) for a in c[2])))
+                else:
+                    bad.append(str(c[1:]))
+            key = "%s/%s" % (f.short, what)
+            if bad:
+                ctx.violation(rid, key, "%s: whether %s is written is decided by %s, not only by the field it carries (%s): a value that is set can be silently left out of the stream" % (
+                    f.short, what, ", ".join(sorted(set(bad))), ", ".join(sorted({ctrl.fmt_path(q) for q in sl if q[1]}))[:160] or "no payload"), b.site(bi), key)
+            else:
+                ctx.ok(rid, key, "controlled only by its own field / loops / errors")
+    ctx.floor(rid, "record_emission_sites", n, 80)
